@@ -493,22 +493,24 @@ def elabStruct (cur : List String) (env : Env) (s : RustStruct) : Option Ty :=
     if supported t && fieldsCompile fs then some t else none
   | none => none
 
-/-- enums: `#[dust_dds(name = "..")]` and, with fixes/D-gen-24.patch, `#[dust_dds(bit_bound = "N")]`, which the derive accepts
-    for N = 8, 16, 32 (attributes.rs:197-215; anything else is "Invalid bit_bound specified") -/
+/-- enums (rust.rs:401-439): `#[dust_dds(name = "..")]` first, then — for @bit_bound(N) — `#[dust_dds(bit_bound( N))]`, AS IT IS a
+    spelling the derive's attribute parser rejects ("expected `=`": attributes.rs:197-215 wants `bit_bound = "N"`), so an enum
+    with @bit_bound does not compile (D-gen-24, open: the repair of the compiler output would change what dds_gen/tests/enums.rs asserts) -/
 def elabEnum (e : RustEnum) : Option Ty :=
-  let bits := e.bitBoundAttr.getD 32
-  if bits == 8 || bits == 16 || bits == 32 then
-    let t := Ty.enum { ident := e.name, rename := e.nameAttr, nested := false, bits := bits, variants := e.variants, dflt := 0 }
-    if supported t then some t else none
-  else none
-
-/-- AS IT WAS before fix D-gen-24: `#[dust_dds(bit_bound( N))]` was written, which the derive's attribute parser rejects -/
-def elabEnumOld (e : RustEnum) : Option Ty :=
   match e.bitBoundAttr with
   | some _ => none
   | none =>
     let t := Ty.enum { ident := e.name, rename := e.nameAttr, nested := false, bits := 32, variants := e.variants, dflt := 0 }
     if supported t then some t else none
+
+/-- the REPAIRED behaviour (either fixes/D-gen-24.patch: the compiler writes `bit_bound = "N"`, or fixes/D-gen-24b.patch: the derive
+    also accepts `bit_bound(N)`): N = 8, 16, 32 select the holder type, anything else is "Invalid bit_bound specified" -/
+def elabEnumFixed (e : RustEnum) : Option Ty :=
+  let bits := e.bitBoundAttr.getD 32
+  if bits == 8 || bits == 16 || bits == 32 then
+    let t := Ty.enum { ident := e.name, rename := e.nameAttr, nested := false, bits := bits, variants := e.variants, dflt := 0 }
+    if supported t then some t else none
+  else none
 
 def elabUnion (cur : List String) (env : Env) (u : RustUnion) : Option Ty :=
   match elabVariants cur env u.variants with
@@ -521,18 +523,19 @@ where
     | [] => true
     | x :: r => !r.contains x && nodupStr r
 
-/-- constants: the text is copied — with fixes/D-gen-28.patch `TRUE` / `FALSE` become `true` / `false` —; it compiles for
-    numeric, boolean and string literals of the right type (only those are generated) -/
+/-- constants (rust.rs:1098-1100, 1117-1141): the const_expr text is copied verbatim; it compiles for numeric and string literals
+    of the right type (only those and TRUE / FALSE are generated). AS IT IS, `TRUE` / `FALSE` are copied too and are not Rust
+    (D-gen-28, open: the repair would change what dds_gen/tests/const_declarations.rs asserts) -/
 def constCompiles (t : RustTy) : Bool :=
   match t with
+  | .prim .bool => false
   | .prim _ => true
   | .path 0 false ["&str"] => true
   | _ => false
 
-/-- AS IT WAS before fix D-gen-28: `TRUE` / `FALSE` were copied and are not Rust -/
-def constCompilesOld (t : RustTy) : Bool :=
+/-- the REPAIRED behaviour (fixes/D-gen-28.patch: `TRUE` / `FALSE` are written `true` / `false`) -/
+def constCompilesFixed (t : RustTy) : Bool :=
   match t with
-  | .prim .bool => false
   | .prim _ => true
   | .path 0 false ["&str"] => true
   | _ => false
